@@ -12,7 +12,7 @@ from ..util import (has_call, find_calls, assigned_value, const_str, unparse, kw
                     guards_of, call_tail, control_ancestors)
 from .. import mutate as M
 
-TECHNIQUE = "static analysis: delegation agreement of predict/score, look-up totality over offered actions, sorted-bracket rule, exact rational identity test of Corral's break points against the poles of f, Dense/Sparse ABC dispatch and registration table"
+TECHNIQUE = "static analysis: delegation agreement of predict/score, look-up totality over offered actions, sorted-bracket rule, exact rational identity test of Corral's break points against the poles of f, Dense/Sparse ABC dispatch and registration table, ordered per-function taint analysis (raw actions never hashed), sign analysis of sqrt/log arguments"
 
 EXPLANATION = ("Sibling rules over every class in coba/learners/{bandit,corral,misguided}.py that has predict and score "
                "(family computed): both delegate to the same predictor attribute, which __init__ builds from the bound "
@@ -40,6 +40,10 @@ def run(ctx):
     r10_math_domains(ctx)
     r11_greedy_set_nonempty(ctx)
     r12_raw_actions_not_hashed(ctx)
+    # "an action from the offered set": Corral's base learners (and every wrapped learner) are handed SafeLearner's protected copy of the offered actions -- a copy
+    # that is not refreshed when the offered set changes makes them vote for actions that are not offered
+    from . import c15
+    c15.r6_safe_actions_cache(ctx, rule="C16.R13")
 
 
 def r12_raw_actions_not_hashed(ctx, rule="C16.R12"):
@@ -732,6 +736,7 @@ def r10_math_domains(ctx):
 
 
 CONTROLS = [
+    ("the protected action copy is keyed only when it was made", "coba/safety.py", M.delete_stmt("SafeLearner.predict", M.text_has("self._prev_actions =")), "C16.R13"),
     ("Corral sums the base weights in a dict keyed by action", "coba/learners/corral.py", M.replace_stmt("CorralLearner._pmf", M.text_has("pmf ="),
         "weight = {}\nfor p_b, b_a in zip(self._p_bars, base_actions): weight[b_a] = weight.get(b_a, 0) + p_b\npmf = [weight.get(a, 0) for a in actions]"), "C16.R12"),
     ("epsilon learner keys its statistics by the raw action", "coba/learners/bandit.py", M.delete_stmt("BanditEpsilonLearner.learn", M.text_has("action = make_hashable(action)")), "C16.R12"),
